@@ -185,7 +185,7 @@ class C20(fw.Prop):
     props_file = "props/C20.v"
     run_file = "run/C20Run.v"
     run_module = "run.C20Run"
-    shard = 20
+    shard = 6
     rule = ("HUGRs built by generated well-formed builder programs (harness/progs.py: all container kinds, "
             "order/const/function/control-flow edges, metadata incl. non-ASCII and nested values, inserted "
             "sub-HUGRs), optionally reloaded from their JSON, each rendered under 2-3 of the 6 "
